@@ -81,7 +81,10 @@ def _q(case, v, wmi, impl_rec=None):
 
 
 def model_query(case, impl_res):
-    wmi = DC.fracs(impl_res['ok']['wmi']) if 'ok' in impl_res else DC.fracs(DC.wmi_of(case['spec']))
+    wmi = impl_res['ok']['wmi'] if 'ok' in impl_res else DC.wmi_of(case['spec'])
+    # params.py may carry `template_scaling`: unwhitened templates are (template . wmi) x scaling
+    sc = float(case['spec'].get('template_scaling') or 1.)
+    wmi = DC.fracs((np.asarray(wmi, dtype=np.float64) * sc).tolist())
     qs = []
     for i, v in enumerate(case['variants']):
         rec = impl_res['ok']['recs'][i] if 'ok' in impl_res else None
@@ -133,6 +136,7 @@ def nontrivial(case):
 
 
 def tally(rep, case, impl_res, ans):
+    rep.count('template_scaling:%s' % (case['spec'].get('template_scaling') or 1))
     rep.count('positions_dtype:' + (case['spec'].get('dtypes') or {}).get('channel_positions', 'float64'))
     if case.get('reopen'):
         rep.count('second_model_on_the_directory')
